@@ -35,10 +35,13 @@ TECHNIQUE = 'Coq proof (generic field + Flocq binary64) + extraction + vm_comput
 
 DIMS = ['[length]', '[time]', '[mass]', '[temperature]', '[current]']
 POOL = ['meter', 'kilometer', 'second', 'minute', 'hour', 'day', 'year', 'kilogram', 'gram', 'kelvin',
-        'pascal', 'hectopascal', 'millibar', 'joule', 'newton', 'watt', 'ampere']
+        'pascal', 'hectopascal', 'millibar', 'joule', 'newton', 'watt', 'delta_degC', 'delta_degF',
+        'radian', 'degree', 'percent', 'ampere']
 # groups of mutually compatible units (same dimension)
 COMPAT = [['meter', 'kilometer'], ['second', 'minute', 'hour', 'day', 'year'], ['kilogram', 'gram'],
-          ['pascal', 'hectopascal', 'millibar'], ['kelvin'], ['joule'], ['newton'], ['watt'], ['ampere']]
+          ['pascal', 'hectopascal', 'millibar'], ['kelvin', 'delta_degC', 'delta_degF'], ['joule'], ['newton'], ['watt'],
+          ['radian', 'degree', 'percent'], ['ampere']]
+FORMS = ['py', '0d', '1el', 'view', 'int']
 
 _mods = None
 def J():
@@ -60,7 +63,21 @@ SCALES = {
 }
 TIME_SCALES = {'default': 'default',
                'hour': SCALES['km_hour_gram_2K'],
-               'awkward': [[1000.0, {'meter': 1}], [12345.678, {'second': 1}], [1.0, {'kilogram': 1}], [1.0, {'kelvin': 1}]]}
+               'awkward': [[1000.0, {'meter': 1}], [12345.678, {'second': 1}], [1.0, {'kilogram': 1}], [1.0, {'kelvin': 1}]],
+               'pow2': [[1.0, {'meter': 1}], [64.0, {'second': 1}], [1.0, {'kilogram': 1}], [1.0, {'kelvin': 1}]],
+               'minute': [[1.0, {'meter': 1}], [1.0, {'minute': 1}], [1.0, {'kilogram': 1}], [1.0, {'kelvin': 1}]]}
+_UNIT_SECONDS = {'second': 1.0, 'minute': 60.0, 'hour': 3600.0, 'day': 86400.0, 'year': 31557600.0}
+
+
+def _T_independent(sp):
+    """The time scale in seconds computed from the literal scale description (not from the Scale object)."""
+    if sp in ('default', 'atmospheric'):
+        return 1.0 / (2.0 * 7.292e-5)
+    if isinstance(sp, str): sp = TIME_SCALES.get(sp) or SCALES[sp]
+    for v, u in sp:
+        (nm, e), = u.items()
+        if nm in _UNIT_SECONDS: return float(v) * _UNIT_SECONDS[nm]
+    raise KeyError('no time scale')
 
 
 def _rand_unit(rng, nmax=3):
@@ -117,16 +134,29 @@ def _cases(ctx):
             for _ in range(6):
                 u = _rand_unit(rng)
                 if rng.integers(0, 12) == 0: u['ampere'] = 1
-                if rng.integers(0, 3) == 0:
+                form = FORMS[int(rng.integers(0, len(FORMS)))]
+                if form == 'int':
+                    m = [[int(x) for x in row] for row in rng.integers(-9, 10, size=(2, 3))] if rng.integers(0, 2) else int(rng.integers(-50, 51))
+                elif form == 'view' or rng.integers(0, 3) == 0:
                     m = [[_rand_mag(rng) for _ in range(2)] for _ in range(2)]
                 else:
                     m = _rand_mag(rng)
-                qs.append({'m': m, 'u': u, 'alt': _alt_unit(rng, u), 'k': int(rng.choice([-2, -1, 2, 3]))})
+                qs.append({'m': m, 'u': u, 'alt': _alt_unit(rng, u), 'k': int(rng.choice([-2, -1, 2, 3])), 'form': form})
             if rep == 0:
                 qs.append({'m': 9.80616, 'u': {'meter': 1, 'second': -2}, 'alt': {'kilometer': 1, 'hour': -2}, 'k': 2})
                 qs.append({'m': 1004.0, 'u': {'joule': 1, 'kilogram': -1, 'kelvin': -1}, 'alt': {'joule': 1, 'gram': -1, 'kelvin': -1}, 'k': -1})
                 qs.append({'m': 2.0 / 7.0, 'u': {}, 'alt': {}, 'k': 3})
                 qs.append({'m': 1013.25, 'u': {'hectopascal': 1}, 'alt': {'pascal': 1}, 'k': 2})
+            if rep == 1:
+                # dimensionless units that carry a numeric factor; structured magnitudes (0, +-1, powers of ten, integers)
+                qs.append({'m': 5.0, 'u': {'percent': 1}, 'alt': {}, 'k': 2})
+                qs.append({'m': 0.05, 'u': {}, 'alt': {'percent': 1}, 'k': 2, 'form': '0d'})
+                qs.append({'m': [90.0, -45.0, 0.0], 'u': {'degree': 1}, 'alt': {'radian': 1}, 'k': 3, 'form': 'view'})
+                qs.append({'m': 3.0, 'u': {'kilometer': 1, 'meter': -1}, 'alt': {'percent': 1}, 'k': -1, 'form': '1el'})
+                qs.append({'m': 7, 'u': {'hour': 1, 'second': -1}, 'alt': {'degree': 1}, 'k': 2, 'form': 'int'})
+                qs.append({'m': [0.0, 1.0, -1.0, 1e6, 1e-6], 'u': {'meter': 1, 'second': -1}, 'alt': {'kilometer': 1, 'day': -1}, 'k': 2})
+                qs.append({'m': 10.0, 'u': {'delta_degF': 1, 'kilometer': -1}, 'alt': {'kelvin': 1, 'meter': -1}, 'k': -2})
+                qs.append({'m': [[1, 2], [3, 4]], 'u': {'gram': 1, 'meter': -3}, 'alt': {'kilogram': 1, 'kilometer': -3}, 'k': 2, 'form': 'int'})
             ctx.count('units:scale=%s' % (sp if isinstance(sp, str) else 'random'))
             yield 'units', {'scale': sp, 'qs': qs}
     # ---- Part B: whole-second durations
@@ -142,7 +172,7 @@ def _cases(ctx):
         big = sorted({int(x) for x in rng.integers(-2 ** 40, 2 ** 40, size=600 if quick else 6000)} |
                      {int(2 ** k + d) for k in range(10, 41) for d in (-1, 0, 1)})
         yield 'td_trace', {'scale': nm, 's': list(range(0, 300)) + [27, 29, 54, 58, 108, 116, 119, 127] + big}
-    for nm in tnames + [rand_T]:
+    for nm in tnames + [rand_T, 'pow2', 'minute']:
         fr = [0.0004, 0.0005, 0.0006, 0.4994, 0.4995, 0.5, 0.5005, 0.9994, 0.99949, 0.9995, 0.99951, 0.9996, 0.99999999]
         secs = [sg * (k + f) for k in (0, 1, 26, 27, 3599, 86400, int(rng.integers(2, 10 ** 9))) for f in fr for sg in (1, -1)]
         secs += [float(x) for x in rng.uniform(-1e6, 1e6, size=100 if quick else 2000)]
@@ -163,8 +193,22 @@ def _cases(ctx):
         yield 'dt_oracle', {'scale': 'default', 'ref': ref, 'seed': int(rng.integers(0, 2 ** 31)), 'n': 200000 if quick else 2000000}
     yield 'dt_oracle', {'scale': 'hour', 'ref': refs[2], 'seed': int(rng.integers(0, 2 ** 31)), 'n': 20000}
     yield 'time_axis', {'scale': 'default', 'steps': [1, 27, 60, 3600, 21600, 86400, 127, int(rng.integers(1, 10 ** 6))]}
+    # ---- forms, options, state (self-review items 1-5, 8)
+    for sp in ['default', 'km_hour_gram_2K', _rand_scale(rng)]:
+        yield 'offset_units', {'scale': sp, 'degC': [20.0, -40.0, 0.0, -273.15, float(rng.uniform(-80, 60))],
+                               'degF': [68.0, -40.0, 0.0, 32.0, float(rng.uniform(-100, 140))]}
+    yield 'scale_api', {}
+    for nm in ['default', 'hour']:
+        yield 'td_forms', {'scale': nm, 's': [0, 1, -1, 27, -27, 60, 3600, 86399, int(rng.integers(2, 10 ** 7)), -int(rng.integers(2, 10 ** 7)), 119, 127]}
+        yield 'dt_forms', {'scale': nm, 'ref': ['1979-01-01T06:30', '2001-09-09T01:46'][nm == 'hour'],
+                           'M': [0, 1, -1, 59, 60, -60, 1440, -1440, 43200, -86400, 129600] +
+                                [int(x) * 60 for x in rng.integers(-2400, 2400, size=6)] + [int(x) for x in rng.integers(-140000, 140000, size=12)]}
+    yield 'sim_time', {'scale': 'default', 'ref': '1979-01-01T06:30', 'start': '1979-01-03T00:00', 'step_min': int(rng.integers(1, 720)), 'n': 5}
+    yield 'sim_time', {'scale': 'hour', 'ref': '2000-02-29T12:34', 'start': '2000-01-31T23:59', 'step_min': 90, 'n': 3}
+    yield 'purity', {'refs': ['1979-03-05T07:30', '2024-02-29T12:00'], 't': [float(x) for x in rng.uniform(-1e4, 1e4, size=6)],
+                     's': [int(x) for x in rng.integers(-10 ** 6, 10 ** 6, size=50)]}
     # ---- Part C: phases
-    for ref in ['1979-01-01T00:00', '1979-03-05T07:30', '2000-12-31T23:59', '2024-02-29T12:00']:
+    for ref in ['1979-01-01T00:00', '1979-03-05T07:30', '2000-12-31T23:59', '2024-02-29T12:00', '1987-06-05T04:03:21']:
         ts = [0.0, -1e-9, 1e-9, 1.0, -1.0, 12.5] + [float(x) for x in rng.uniform(-2e5, 2e5, size=20 if quick else 200)] + \
              [float(x) for x in rng.uniform(-50, 50, size=20 if quick else 200)]
         yield 'phase', {'ref': ref, 'scale': 'default', 't': ts}
@@ -232,6 +276,28 @@ def _specs(sp):
 _specs.cache = {}
 
 
+def _form_input(m, form):
+    """Builds the magnitude object handed to pint in the requested form; returns it
+    with a float copy of its content (to check that the call does not modify it)."""
+    a = np.asarray(m, dtype=np.float64)
+    if form == 'int':
+        obj = np.asarray(m) if a.ndim else int(m)
+    elif a.ndim:
+        if form == 'view':
+            base = np.repeat(a, 2, axis=-1) * np.tile([1.0, -7.5], a.shape[-1])
+            obj = base[..., ::2]
+            obj.setflags(write=False)
+        else:
+            obj = a.copy()
+    elif form == '0d':
+        obj = np.asarray(float(m))
+    elif form == '1el':
+        obj = np.asarray([float(m)])
+    else:
+        obj = float(m)
+    return obj, np.asarray(obj, dtype=np.float64).ravel().tolist()
+
+
 def r_units(ctx, a):
     scales = J()[0]
     sq, S = _scale_quantities(a['scale'])
@@ -277,11 +343,23 @@ def r_units(ctx, a):
     m_nd = ctx.model.call(0, base_ints + [e for f in flat for e in vec(f[1])], [cv, msc, [f[0] for f in flat]])
     impl_nd = []; impl_ok = []
     pos = 0
+    sp4 = None
+    if all(d in S for d in DIMS[:4]):
+        sp4 = J()[1].PrimitiveEquationsSpecs.from_si(scale=S)
     for q in qs:
         arr = np.asarray(q['m'], dtype=np.float64)
+        mag, keep = _form_input(q['m'], q.get('form', 'py'))
+        ctx.count('units:form=%s' % q.get('form', 'py'))
         try:
-            r = S.nondimensionalize(arr * _unit(q['u']) if arr.ndim else float(arr) * _unit(q['u']))
-            r = np.asarray(r, dtype=np.float64).ravel().tolist(); okk = 1
+            quantity = scales.units.Quantity(mag, _unit(q['u']))
+            r0 = S.nondimensionalize(quantity)
+            if sp4 is not None:      # the PrimitiveEquationsSpecs wrapper is the same function
+                ctx.exact('specs.nondimensionalize = scale.nondimensionalize',
+                          np.asarray(sp4.nondimensionalize(quantity), dtype=np.float64).ravel().tolist(),
+                          np.asarray(r0, dtype=np.float64).ravel().tolist())
+            ctx.exact('input magnitudes are not modified', np.asarray(mag, dtype=np.float64).ravel().tolist(), keep)
+            r = np.asarray(r0, dtype=np.float64).ravel().tolist(); okk = 1
+            if len(r) != arr.size: r = [float('nan')] * arr.size
         except ValueError:
             r = [0.0] * arr.size; okk = 0
         except (ZeroDivisionError, OverflowError):      # compound scaling factor left the float64 range
@@ -297,6 +375,18 @@ def r_units(ctx, a):
             ctx.corr('Scale.nondimensionalize', [impl_nd[i]], [m_nd[2 * i + 1]], scale=abs(float(m_nd[2 * i + 1])) + 1e-300)
     # --- dimensionalize in an alternative compatible unit
     m_dim = ctx.model.call(1, base_ints + [e for f in flat for e in vec(f[2])], [cv, msc, impl_nd])
+    pos = 0
+    for q in qs:       # array-valued and wrapper forms of dimensionalize agree bit for bit with the elementwise calls
+        arr = np.asarray(q['m'], dtype=np.float64); sz = arr.size
+        if arr.ndim and all(impl_ok[pos:pos + sz]):
+            vals_q = np.asarray(impl_nd[pos:pos + sz]).reshape(arr.shape)
+            whole = np.asarray(S.dimensionalize(vals_q, _unit(q['alt'])).magnitude, dtype=np.float64).ravel().tolist()
+            each = [float(S.dimensionalize(v, _unit(q['alt'])).magnitude) for v in impl_nd[pos:pos + sz]]
+            ctx.exact('dimensionalize: array call = elementwise calls', whole, each)
+            if sp4 is not None:
+                ctx.exact('specs.dimensionalize = scale.dimensionalize',
+                          np.asarray(sp4.dimensionalize(vals_q, _unit(q['alt'])).magnitude, dtype=np.float64).ravel().tolist(), whole)
+        pos += sz
     for i, (m, u, alt, kk) in enumerate(flat):
         if not impl_ok[i]: continue
         back = S.dimensionalize(impl_nd[i], _unit(alt))
@@ -313,16 +403,16 @@ def r_units(ctx, a):
         j = (i + 1) % k
         # products / quotients / powers: compound scaling factors can leave the float64 range
         # (e.g. mass^-9 under the atmospheric scale underflows to 0): those cases are skipped
-        def _nd(q):
+        def _nd(fq):
             try:
-                r = float(S.nondimensionalize(q))
+                r = float(S.nondimensionalize(fq()))
             except (ZeroDivisionError, OverflowError):
                 return None
             return r if math.isfinite(r) and abs(r) > 1e-280 else None
         if impl_ok[j]:
             q2 = flat[j][0] * _unit(flat[j][1])
             pr = impl_nd[i] * impl_nd[j]; qu = impl_nd[i] / impl_nd[j] if impl_nd[j] != 0 else float('inf')
-            a1 = _nd(orig * q2); a2 = _nd(orig / q2)
+            a1 = _nd(lambda: orig * q2); a2 = _nd(lambda: orig / q2)
             if a1 is not None and math.isfinite(pr) and abs(pr) > 1e-280:
                 ctx.oracle_close('nondimensionalize respects products', [a1], [pr], scale=abs(pr))
             else: ctx.count('units:range_skipped')
@@ -333,7 +423,7 @@ def r_units(ctx, a):
             pw = impl_nd[i] ** kk
         except (ZeroDivisionError, OverflowError):
             pw = float('inf')
-        p = _nd(orig ** kk)
+        p = _nd(lambda: orig ** kk)
         if p is not None and math.isfinite(pw) and abs(pw) > 1e-280:
             ctx.oracle_close('nondimensionalize respects powers', [p], [pw], scale=abs(pw))
         else: ctx.count('units:range_skipped')
@@ -432,8 +522,16 @@ def _nd_values(a):
 def _e_td_dim(a):
     T = _specs(a['scale'])[2]; v = _nd_values(a)
     return ['map (dim_td %s) %s' % (_hexlit(T), _fl(v)), 'map (fun v => dim_dt %s (v * 60)%%float) %s' % (_hexlit(T), _fl(v))]
+def _e_td_ints(a): return ['map (dim_td %s) %s' % (_hexlit(_specs(a['scale'])[2]), _fl([0.0, 1.0, -1.0, 2.0, 5.0]))]
+def _e_dt_axis(a):
+    steps = [int(x) for x in a['M'] if x > 0][:6]
+    return ['map (nondim_td %s) %s' % (_hexlit(_specs(a['scale'])[2]), _zl([st * 60 for st in steps]))]
+def _e_sim_time(a):
+    ref = np.datetime64(a['ref']); times = np.datetime64(a['start']) + np.arange(a['n']) * np.timedelta64(a['step_min'], 'm')
+    return ['map (dt_trace %s) %s' % (_hexlit(_specs(a['scale'])[2]), _zl([int(x) for x in ((times - ref) / np.timedelta64(1, 'm'))]))]
 def _e_time_axis(a): return ['map (nondim_td %s) %s' % (_hexlit(_specs(a['scale'])[2]), _zl(a['steps']))]
-EXPRS = {'td_dim': _e_td_dim, 'td_dense': _e_td_dense, 'td_trace': _e_td_trace, 'dt_trace': _e_dt_trace, 'dt_dense': _e_dt_dense, 'time_axis': _e_time_axis}
+EXPRS = {'td_forms': lambda a: _e_td_trace(a) + _e_td_ints(a), 'dt_forms': lambda a: _e_dt_trace(a) + _e_dt_axis(a), 'sim_time': _e_sim_time,
+         'td_dim': _e_td_dim, 'td_dense': _e_td_dense, 'td_trace': _e_td_trace, 'dt_trace': _e_dt_trace, 'dt_dense': _e_dt_dense, 'time_axis': _e_time_axis}
 
 
 def _td_impl(specs, arr_s):
@@ -589,6 +687,282 @@ def r_time_axis(ctx, a):
     _bits_equal('nondim_time_delta_from_time_axis bit-exact', ctx, impl, res)
 
 
+
+# ---------------------------------------------------------------------------
+# forms, options and state (self-review)
+# ---------------------------------------------------------------------------
+def _scale_sigma_T(sp):
+    """Temperature scale in kelvin from the literal scale description."""
+    if sp in ('default', 'atmospheric'): return 1.0
+    if isinstance(sp, str): sp = SCALES[sp]
+    for v, u in sp:
+        (nm, e), = u.items()
+        if nm == 'kelvin': return float(v)
+        if nm == 'delta_degC': return float(v)
+        if nm == 'delta_degF': return float(v) * 5.0 / 9.0
+    raise KeyError('no temperature scale')
+
+
+def r_offset_units(ctx, a):
+    """Offset units (the registry is built with autoconvert_offset_to_baseunit=True): degC / degF
+    quantities are converted to kelvin before scaling.  References: the affine definitions
+    K = C + 273.15, K = (F + 459.67) * 5/9 evaluated here, and the multiplicative model on K."""
+    scales = J()[0]; u = scales.units
+    sq, S = _scale_quantities(a['scale'])
+    sig = _scale_sigma_T(a['scale'])
+    for name, vals, toK, fromK, off in (('degC', a['degC'], lambda c: c + 273.15, lambda k: k - 273.15, 273.15),
+                                        ('degF', a['degF'], lambda f: (f + 459.67) * 5.0 / 9.0, lambda k: k * 9.0 / 5.0 - 459.67, 459.67)):
+        unit = getattr(u, name)
+        arr = np.asarray(vals, dtype=np.float64)
+        nd_arr = np.asarray(S.nondimensionalize(u.Quantity(arr, unit)), dtype=np.float64)
+        nd_sc = [float(S.nondimensionalize(u.Quantity(float(v), unit))) for v in vals]
+        ctx.exact('offset units: array call = scalar calls (%s)' % name, nd_arr.tolist(), nd_sc)
+        K = np.array([toK(float(v)) for v in vals])
+        sc = (np.abs(arr) + off) / sig
+        for i in range(len(vals)):
+            ctx.oracle_close('nondimensionalize of an offset-unit quantity = its absolute temperature / temperature scale (%s)' % name,
+                             [nd_sc[i]], [K[i] / sig], scale=sc[i], tol_rel=2.0 ** -40)
+            # multiplicative model applied to the kelvin value
+            names = sorted({'kelvin'} | {nm for _, uu in sq for nm in uu}); cv, ud = _table(names)
+            has = [1 if d in S else 0 for d in DIMS]; scv = [float(S[d].magnitude) if d in S else 1.0 for d in DIMS]
+            ints = [len(names), len(DIMS), 1] + [e for row in ud for e in row] + has + [1 if nm == 'kelvin' else 0 for nm in names]
+            m = ctx.model.call(0, ints, [cv, scv, [K[i]]])
+            ctx.corr('Scale.nondimensionalize (offset unit, model on the kelvin value)', [nd_sc[i]], [m[1]], scale=sc[i])
+            back = S.dimensionalize(nd_sc[i], unit)
+            ctx.oracle_close('dimensionalize(nondimensionalize(q)) in the same unit returns q (%s)' % name, [float(back.magnitude)], [float(vals[i])],
+                             scale=abs(float(vals[i])) + off, tol_rel=2.0 ** -40)
+            ctx.oracle_close('dimensionalize to an offset unit = affine image of the kelvin value (%s)' % name,
+                             [float(S.dimensionalize(K[i] / sig, unit).magnitude)], [fromK(K[i])], scale=abs(K[i]) * 2 + off, tol_rel=2.0 ** -40)
+            ctx.oracle_close('nondimensionalize is independent of the unit of expression (%s vs kelvin)' % name,
+                             [float(S.nondimensionalize(K[i] * u.kelvin))], [nd_sc[i]], scale=sc[i], tol_rel=2.0 ** -40)
+        back_arr = np.asarray(S.dimensionalize(nd_arr, unit).magnitude, dtype=np.float64)
+        ctx.oracle_close('dimensionalize(nondimensionalize(q)) in the same unit returns q (%s, array)' % name, back_arr, arr,
+                         scale=float(np.abs(arr).max()) + off, tol_rel=2.0 ** -40)
+        other = u.degF if name == 'degC' else u.degC
+        ctx.oracle_close('nondimensionalize is independent of the unit of expression (degC <-> degF)',
+                         np.asarray(S.nondimensionalize(u.Quantity(arr, unit).to(other)), dtype=np.float64), nd_arr, scale=float(sc.max()), tol_rel=2.0 ** -40)
+
+
+def r_scale_api(ctx, a):
+    """Constructor validation, Mapping interface, parse_units aliases."""
+    scales = J()[0]; u = scales.units
+    def raises(f):
+        try: f(); return False
+        except ValueError: return True
+    ctx.oracle('Scale rejects two scales of one dimension', raises(lambda: scales.Scale(1 * u.m, 2 * u.km)), None)
+    ctx.oracle('Scale rejects two scales of one dimension', raises(lambda: scales.Scale(1 * u.s, 1 * u.m, 3 * u.hour)), None)
+    ctx.oracle('Scale rejects compound-unit scales', raises(lambda: scales.Scale(1 * u.m / u.s)), None)
+    ctx.oracle('Scale rejects compound-unit scales', raises(lambda: scales.Scale(1 * u.m ** 2)), None)
+    ctx.oracle('Scale rejects compound-unit scales', raises(lambda: scales.Scale(1 * u.dimensionless)), None)
+    S = scales.Scale(2 * u.km, 3 * u.minute)
+    ctx.exact('Mapping interface of Scale', [len(S), list(S), float(S['[length]'].magnitude), float(S['[time]'].magnitude),
+                                             str(S['[length]'].units), str(S['[time]'].units), '[mass]' in S],
+              [2, ['[length]', '[time]'], 2000.0, 180.0, 'meter', 'second', False])
+    ctx.oracle('nondimensionalize raises ValueError when a scale is missing', raises(lambda: S.nondimensionalize(1 * u.kg)), None)
+    ctx.oracle('dimensionalize raises ValueError when a scale is missing', raises(lambda: S.dimensionalize(1.0, u.kelvin)), None)
+    ctx.exact('a partial scale converts what it covers', float(S.nondimensionalize(10 * u.m / u.s)), 10.0 / 2000.0 * 180.0)
+    for txt in ['(0 - 1)', '%', '~', 'dimensionless']:
+        q = scales.parse_units(txt)
+        ctx.exact('parse_units alias %r is dimensionless with factor 1' % txt, [float(q.magnitude), str(q.units)], [1.0, 'dimensionless'])
+    for txt, want in [('m/s', {'meter': 1, 'second': -1}), ('kg m**-2', {'kilogram': 1, 'meter': -2}), ('K', {'kelvin': 1}), ('Pa', {'pascal': 1})]:
+        q = scales.parse_units(txt)
+        ctx.exact('parse_units %r' % txt, [float(q.magnitude), {k: int(v) for k, v in q._units.items()}], [1.0, want])
+    D = scales.DEFAULT_SCALE; A = scales.ATMOSPHERIC_SCALE
+    ctx.exact('DEFAULT_SCALE / ATMOSPHERIC_SCALE literal values',
+              [float(D['[length]'].magnitude), float(D['[time]'].magnitude).hex(), float(D['[mass]'].magnitude), float(D['[temperature]'].magnitude),
+               float(A['[length]'].magnitude), float(A['[time]'].magnitude).hex(), float(A['[mass]'].magnitude), float(A['[temperature]'].magnitude)],
+              [6.37122e6, (1.0 / (2.0 * 7.292e-5)).hex(), 1.0, 1.0, 6.37122e6, (1.0 / (2.0 * 7.292e-5)).hex(), 5.18e18, 1.0])
+
+
+def r_td_forms(ctx, a):
+    """Scalars, 0-d, 1-element, empty, 2-D, strided read-only, other timedelta units, python /
+    numpy / jax scalars: every form must give what the flat array path gives (which is compared
+    with the model bit for bit)."""
+    import jax.numpy as jnp
+    specs, S, T = _specs(a['scale'])
+    nd_f = specs.nondimensionalize_timedelta64; dm_f = specs.dimensionalize_timedelta64
+    s = [int(x) for x in a['s']]
+    res = coq_eval(ctx, _e_td_trace(a))[0]
+    if res is None or len(res) != 4 * len(s):
+        ctx.exact('td_trace model evaluation', 'ok', 'failed'); return
+    m_nd = [float(x) for x in res[0::4]]; m_back = [int(x) for x in res[3::4]]
+    ctx.oracle_close('time scale = its literal definition', [T], [_T_independent(a['scale'])], scale=T, tol_rel=2.0 ** -50)
+    td = np.asarray(s, dtype=np.int64).astype('timedelta64[s]')
+    hexs = lambda x: [float(v).hex() for v in np.asarray(x, dtype=np.float64).ravel()]
+    want = [float(v).hex() for v in m_nd]
+    ctx.exact('nondimensionalize_timedelta64: flat array', hexs(nd_f(td)), want)
+    ctx.exact('nondimensionalize_timedelta64: scalars', [float(nd_f(x)).hex() for x in td], want)
+    ctx.exact('nondimensionalize_timedelta64: 0-d arrays', [float(nd_f(np.asarray(x))).hex() for x in td], want)
+    ctx.exact('nondimensionalize_timedelta64: 1-element arrays', [float(nd_f(np.asarray([x]))[0]).hex() for x in td], want)
+    ctx.exact('nondimensionalize_timedelta64: empty array', list(np.asarray(nd_f(td[:0])).shape), [0])
+    two = td.reshape(2, -1)
+    ctx.exact('nondimensionalize_timedelta64: 2-D array', hexs(nd_f(two)), want)
+    base = np.stack([td, td[::-1]], axis=1).copy(); view = base[:, 0]; view.setflags(write=False)
+    ctx.exact('nondimensionalize_timedelta64: strided read-only view', hexs(nd_f(view)), want)
+    ctx.exact('input not modified', view.astype(np.int64).tolist(), s)
+    for unit, mult in (('ms', 1000), ('us', 10 ** 6), ('ns', 10 ** 9)):
+        ctx.exact('nondimensionalize_timedelta64: timedelta64[%s] input' % unit, hexs(nd_f((np.asarray(s, dtype=np.int64) * mult).astype('timedelta64[%s]' % unit))), want)
+    for unit, div in (('m', 60), ('h', 3600), ('D', 86400)):
+        idx = [i for i, x in enumerate(s) if x % div == 0]
+        arr = np.asarray([s[i] // div for i in idx], dtype=np.int64).astype('timedelta64[%s]' % unit)
+        ctx.exact('nondimensionalize_timedelta64: timedelta64[%s] input' % unit, hexs(nd_f(arr)), [want[i] for i in idx])
+    # dimensionalize_timedelta64
+    v = np.asarray(m_nd, dtype=np.float64)
+    sec = lambda x: int(x / np.timedelta64(1, 's'))
+    ctx.exact('dimensionalize_timedelta64: flat array', dm_f(v).astype(np.int64).tolist(), m_back)
+    ctx.exact('dimensionalize_timedelta64: dtype', str(dm_f(v).dtype), 'timedelta64[s]')
+    ctx.exact('dimensionalize_timedelta64: python floats', [sec(dm_f(float(x))) for x in v], m_back)
+    ctx.exact('dimensionalize_timedelta64: numpy scalars', [sec(dm_f(x)) for x in v], m_back)
+    ctx.exact('dimensionalize_timedelta64: 0-d arrays', [sec(dm_f(np.asarray(x))) for x in v], m_back)
+    ctx.exact('dimensionalize_timedelta64: 0-d jax arrays', [sec(dm_f(jnp.asarray(x))) for x in v], m_back)
+    ctx.exact('dimensionalize_timedelta64: 1-element arrays', [int(dm_f(np.asarray([x])).astype(np.int64)[0]) for x in v], m_back)
+    ctx.exact('dimensionalize_timedelta64: empty array', list(dm_f(v[:0]).shape), [0])
+    ctx.exact('dimensionalize_timedelta64: 2-D array', dm_f(v.reshape(-1, 2)).astype(np.int64).ravel().tolist(), m_back)
+    vb = np.stack([v, -v], axis=1).copy(); vv = vb[:, 0]; vv.setflags(write=False)
+    ctx.exact('dimensionalize_timedelta64: strided read-only view', dm_f(vv).astype(np.int64).tolist(), m_back)
+    ctx.exact('input not modified', hexs(vv), want)
+    # integer-typed non-dimensional values: k * T seconds
+    ints = [0, 1, -1, 2, 5]
+    wanti = coq_eval(ctx, _e_td_ints(a))[0]
+    ctx.exact('dimensionalize_timedelta64: integer array', dm_f(np.asarray(ints)).astype(np.int64).tolist(), wanti)
+    ctx.exact('dimensionalize_timedelta64: python ints', [sec(dm_f(k)) for k in ints], wanti)
+
+
+def r_dt_forms(ctx, a):
+    """datetime helpers: scalar / array / 2-D inputs, datetime64 units [ns] ... [D], reference not at
+    midnight, python / numpy scalars for the inverse, time-axis helper in every unit."""
+    xu = J()[2]
+    specs, S, T = _specs(a['scale'])
+    M = [int(x) for x in a['M']]
+    res = coq_eval(ctx, _e_dt_trace(a))[0]
+    if res is None or len(res) != 3 * len(M):
+        ctx.exact('dt_trace model evaluation', 'ok', 'failed'); return
+    want = [float(x).hex() for x in res[0::3]]; backM = [int(x) for x in res[2::3]]
+    hexs = lambda x: [float(v).hex() for v in np.asarray(x, dtype=np.float64).ravel()]
+    for unit in ('ns', 'us', 'ms', 's', 'm'):
+        r = np.datetime64(a['ref']).astype('datetime64[%s]' % unit)
+        t = r + (np.asarray(M, dtype=np.int64).astype('timedelta64[m]')).astype('timedelta64[%s]' % unit)
+        nd = xu.datetime64_to_nondim_time(t, specs, r)
+        ctx.exact('datetime64_to_nondim_time: datetime64[%s] array' % unit, hexs(nd), want)
+        ctx.exact('datetime64_to_nondim_time: datetime64[%s] scalars' % unit, [float(xu.datetime64_to_nondim_time(x, specs, r)).hex() for x in t], want)
+        ctx.exact('datetime64_to_nondim_time: 2-D array', hexs(xu.datetime64_to_nondim_time(np.stack([t, t[::-1]]), specs, r)), want + want[::-1])
+        nd = np.asarray(nd, dtype=np.float64)
+        back = xu.nondim_time_to_datetime64(nd, specs, r)
+        ctx.exact('nondim_time_to_datetime64: datetime64[%s] array' % unit, ((back - r) / np.timedelta64(1, 'm')).astype(np.int64).tolist(), backM)
+        ctx.oracle('calendar times survive the model-time round trip at minute resolution', bool((back == t).all()),
+                   {'unit': unit, 'ref': a['ref'], 'first': [str(x) for x in t[back != t][:3]]})
+        sc_back = [xu.nondim_time_to_datetime64(x, specs, r) for x in nd] + [xu.nondim_time_to_datetime64(float(x), specs, r) for x in nd[:4]] + \
+                  [xu.nondim_time_to_datetime64(np.asarray(x), specs, r) for x in nd[:4]]
+        ctx.exact('nondim_time_to_datetime64: scalar forms (numpy / python / 0-d)', [str(np.datetime64(x, 'm')) for x in sc_back],
+                  [str(np.datetime64(x, 'm')) for x in list(t) + list(t[:4]) + list(t[:4])])
+        ctx.exact('nondim_time_to_datetime64: 2-D array', [str(x) for x in xu.nondim_time_to_datetime64(nd.reshape(-1, 1), specs, r).ravel()], [str(x) for x in back])
+    # a reference with seconds: the seconds are carried through unchanged
+    r = np.datetime64(a['ref'] + ':17'); t = r + np.asarray(M, dtype=np.int64).astype('timedelta64[m]')
+    back = xu.nondim_time_to_datetime64(xu.datetime64_to_nondim_time(t, specs, r), specs, r)
+    ctx.oracle('calendar times survive the model-time round trip at minute resolution', bool((back == t).all()),
+               {'ref': str(r), 'first': [str(x) for x in t[back != t][:3]]})
+    for unit, div in (('h', 60), ('D', 1440)):
+        idx = [i for i, x in enumerate(M) if x % div == 0]
+        r = np.datetime64(a['ref']).astype('datetime64[%s]' % unit)
+        t = r + np.asarray([M[i] // div for i in idx], dtype=np.int64).astype('timedelta64[%s]' % unit)
+        ctx.exact('datetime64_to_nondim_time: datetime64[%s] array' % unit, hexs(xu.datetime64_to_nondim_time(t, specs, r)), [want[i] for i in idx])
+    # nondim_time_delta_from_time_axis
+    steps = [int(x) for x in a['M'] if x > 0][:6]
+    wax = coq_eval(ctx, _e_dt_axis(a))[0]
+    for unit, per in (('ns', 10 ** 9), ('us', 10 ** 6), ('ms', 1000), ('s', 1)):
+        got = []
+        for st in steps:      # st minutes between samples
+            ax = np.datetime64(a['ref']).astype('datetime64[%s]' % unit) + np.arange(3) * np.timedelta64(st * 60 * per, unit)
+            got.append(float(xu.nondim_time_delta_from_time_axis(ax, specs)))
+        _bits_equal('nondim_time_delta_from_time_axis: datetime64[%s] axis' % unit, ctx, got, wax)
+    got = [float(xu.nondim_time_delta_from_time_axis(np.datetime64(a['ref'], 'm') + np.arange(2) * np.timedelta64(st, 'm'), specs)) for st in steps]
+    _bits_equal('nondim_time_delta_from_time_axis: datetime64[m] axis of length 2', ctx, got, wax)
+    got = [float(xu.nondim_time_delta_from_time_axis((np.arange(4) * st * 60).astype('timedelta64[s]'), specs)) for st in steps]
+    _bits_equal('nondim_time_delta_from_time_axis: timedelta64[s] axis', ctx, got, wax)
+    got = [float(xu.nondim_time_delta_from_time_axis(np.arange(3) * st * 60, specs)) for st in steps]
+    _bits_equal('nondim_time_delta_from_time_axis: integer axis counts seconds', ctx, got, wax)
+    for dt in (np.float32, np.float64):
+        ax = np.array([0.5, 0.75, 1.0], dtype=dt)
+        ctx.exact('float time axis passes through (%s)' % dt.__name__, float(xu.nondim_time_delta_from_time_axis(ax, specs)), 0.25)
+
+
+def r_sim_time(ctx, a):
+    """xarray_utils.with_sim_time: datetime64 time coordinate (xarray stores [ns]), sample axis,
+    float time, existing sim_time."""
+    import xarray
+    xu = J()[2]
+    specs, S, T = _specs(a['scale'])
+    ref = np.datetime64(a['ref']); n = a['n']
+    times = np.datetime64(a['start']) + np.arange(n) * np.timedelta64(a['step_min'], 'm')
+    M = [int(x) for x in ((times - ref) / np.timedelta64(1, 'm'))]
+    res = coq_eval(ctx, _e_sim_time(a))[0]
+    if res is None or len(res) != 3 * n:
+        ctx.exact('dt_trace model evaluation', 'ok', 'failed'); return
+    want = [float(x) for x in res[0::3]]
+    ds = xarray.Dataset({'a': (('time', 'x'), np.zeros((n, 2)))}, coords={'time': times})
+    out = xu.with_sim_time(ds, specs, ref)
+    _bits_equal('with_sim_time: sim_time of a datetime64 axis', ctx, out.sim_time.values, want)
+    ctx.exact('with_sim_time: dims', list(out.sim_time.dims), ['time'])
+    ds2 = xarray.Dataset({'a': (('sample', 'time'), np.zeros((3, n)))}, coords={'time': times, 'sample': [0, 1, 2]})
+    out2 = xu.with_sim_time(ds2, specs, ref)
+    ctx.exact('with_sim_time: sample axis dims/shape', [list(out2.sim_time.dims), list(out2.sim_time.shape)], [['sample', 'time'], [3, n]])
+    _bits_equal('with_sim_time: every sample carries the same sim_time', ctx, out2.sim_time.values.ravel(), want * 3)
+    keep = np.arange(n) * 1.5 + 7
+    out3 = xu.with_sim_time(ds.assign(sim_time=('time', keep)), specs, ref)
+    ctx.exact('with_sim_time: an existing sim_time is kept', out3.sim_time.values.tolist(), keep.tolist())
+    dsf = xarray.Dataset({'a': (('time',), np.zeros(n))}, coords={'time': np.linspace(0.0, 1.0, n)})
+    ctx.exact('with_sim_time: float time is already non-dimensional', xu.with_sim_time(dsf, specs, ref).sim_time.values.tolist(), np.linspace(0.0, 1.0, n).tolist())
+    ctx.exact('ds_with_sim_time alias', xu.ds_with_sim_time is xu.with_sim_time, True)
+
+
+def r_purity(ctx, a):
+    """Same objects evaluated repeatedly and interleaved: bit-identical results, nothing cached is
+    mutated, two SolarRadiation objects differing only in the reference date in both orders."""
+    scales, pe, xu, radiation = J()
+    sp_a, S_a, T_a = _specs('default'); sp_b, S_b, T_b = _specs('hour')
+    td = np.asarray(a['s'], dtype=np.int64).astype('timedelta64[s]')
+    before = [float(scales.DEFAULT_SCALE[d].magnitude).hex() for d in DIMS[:4]] + [repr(scales.DEFAULT_SCALE)]
+    hexs = lambda x: [float(v).hex() for v in np.asarray(x, dtype=np.float64).ravel()]
+    r1 = hexs(sp_a.nondimensionalize_timedelta64(td)); q1 = hexs(sp_b.nondimensionalize_timedelta64(td))
+    b1 = sp_a.dimensionalize_timedelta64(sp_a.nondimensionalize_timedelta64(td)).astype(np.int64).tolist()
+    r2 = hexs(sp_a.nondimensionalize_timedelta64(td)); q2 = hexs(sp_b.nondimensionalize_timedelta64(td))
+    ctx.exact('repeated / interleaved calls are bit-identical', [r1, q1], [r2, q2])
+    ctx.exact('two scales in one process do not leak into each other', r1 == q1, False)
+    ctx.exact('round trip under the first scale after using the second', b1, [int(x) for x in a['s']])
+    q = 9.80616 * scales.units.m / scales.units.s ** 2
+    v1 = float(S_a.nondimensionalize(q)); w1 = float(S_b.nondimensionalize(q)); v2 = float(S_a.nondimensionalize(q))
+    ctx.exact('Scale.nondimensionalize is pure', v1.hex(), v2.hex())
+    ctx.oracle_close('g under the default scale = g * T^2 / a', [v1], [9.80616 * _T_independent('default') ** 2 / 6.37122e6], scale=v1, tol_rel=2.0 ** -40)
+    ctx.oracle_close('g under the km/hour scale = g * T^2 / a', [w1], [9.80616 * 3600.0 ** 2 / 1000.0], scale=w1, tol_rel=2.0 ** -40)
+    after = [float(scales.DEFAULT_SCALE[d].magnitude).hex() for d in DIMS[:4]] + [repr(scales.DEFAULT_SCALE)]
+    ctx.exact('DEFAULT_SCALE is not modified by use', after, before)
+    # SolarRadiation: two reference dates, both orders, repeated evaluation
+    ra, rb = a['refs']
+    from dinosaur import coordinate_systems, spherical_harmonic, sigma_coordinates
+    coords = coordinate_systems.CoordinateSystem(spherical_harmonic.Grid.with_wavenumbers(8), sigma_coordinates.SigmaCoordinates.equidistant(1))
+    def phases(sr):
+        return [[float(sr.time_to_orbital_time(t).orbital_phase).hex(), float(sr.time_to_orbital_time(t).synodic_phase).hex()] for t in a['t']]
+    A1 = radiation.SolarRadiation(coords, sp_a, np.datetime64(ra)); refA = [float(A1.reference_orbital_time.orbital_phase).hex(), float(A1.reference_orbital_time.synodic_phase).hex()]
+    pA1 = phases(A1)
+    B1 = radiation.SolarRadiation(coords, sp_a, np.datetime64(rb)); pB1 = phases(B1)
+    pA2 = phases(A1)
+    B2 = radiation.SolarRadiation(coords, sp_a, np.datetime64(rb)); A2 = radiation.SolarRadiation(coords, sp_a, np.datetime64(ra))
+    ctx.exact('time_to_orbital_time: repeated evaluation, objects created in both orders', [pA1, pB1], [pA2, phases(B2)])
+    ctx.exact('time_to_orbital_time: second object with the same reference', phases(A2), pA1)
+    ctx.exact('reference_orbital_time is not modified by time_to_orbital_time',
+              [float(A1.reference_orbital_time.orbital_phase).hex(), float(A1.reference_orbital_time.synodic_phase).hex()], refA)
+    ctx.exact('different reference dates give different phases', pA1 == pB1, False)
+    N = radiation.SolarRadiation.normalized(coords, sp_a, np.datetime64(ra))
+    ctx.exact('SolarRadiation.normalized keeps the time arithmetic', phases(N), pA1)
+    # the grid / number of levels must not matter for the time arithmetic
+    sr_big, _, _ = _solar(ra, 'default')
+    ctx.exact('time_to_orbital_time does not depend on the coordinate system', phases(sr_big), pA1)
+    # numpy / jax scalar inputs
+    import jax.numpy as jnp
+    t0 = a['t'][0]
+    got = [float(A1.time_to_orbital_time(f(t0)).synodic_phase) for f in (float, np.float64, jnp.asarray)]
+    ctx.exact('time_to_orbital_time: python / numpy / jax scalar inputs', [x.hex() for x in got[1:]], [got[0].hex()] * 2)
+
 # ---------------------------------------------------------------------------
 # Part C
 # ---------------------------------------------------------------------------
@@ -627,10 +1001,27 @@ def r_phase(ctx, a):
     ctx.corr('orbital_rate = nondimensionalize(2 pi / year)', [rate_o], [mr[1]], scale=abs(rate_o))
     ctx.corr('synodic_rate = nondimensionalize(2 pi / day)', [rate_s], [mr[3]], scale=abs(rate_s))
     ref_o = float(sr.reference_orbital_time.orbital_phase); ref_s = float(sr.reference_orbital_time.synodic_phase)
+    # independent reference values: calendar arithmetic of the standard library and the literal scale description
+    Ti = _T_independent(a['scale'])
+    d0 = datetime.datetime.fromisoformat(a['ref'])
+    leap = (d0.year % 4 == 0 and (d0.year % 100 != 0 or d0.year % 400 == 0))
+    fod = (60 * d0.hour + d0.minute) / 1440.0
+    yday0 = (d0.date() - datetime.date(d0.year, 1, 1)).days
+    ind = {'ref_o': twopi * (yday0 + fod) / (366 if leap else 365), 'ref_s': twopi * fod,
+           'rate_o': twopi * Ti / 31557600.0, 'rate_s': twopi * Ti / 86400.0}
+    for nm, got in (('ref_o', ref_o), ('ref_s', ref_s), ('rate_o', rate_o), ('rate_s', rate_s)):
+        ctx.oracle_close('reference phases and rates equal their calendar / unit definitions (%s)' % nm, [got], [ind[nm]],
+                         scale=abs(ind[nm]) + 1e-300, tol_rel=2.0 ** -40)
+    ref_o, ref_s, rate_o, rate_s = ind['ref_o'], ind['ref_s'], ind['rate_o'], ind['rate_s']
+    sr_dt = radiation.SolarRadiation(sr.coords, specs, d0)          # datetime.datetime instead of np.datetime64
+    ctx.exact('SolarRadiation(reference as datetime) = SolarRadiation(reference as datetime64)',
+              [float(sr_dt.reference_orbital_time.orbital_phase), float(sr_dt.reference_orbital_time.synodic_phase)],
+              [float(sr.reference_orbital_time.orbital_phase), float(sr.reference_orbital_time.synodic_phase)])
     ts = [float(t) for t in a['t']]
     mo = ctx.model.call(4, [], [[twopi, ref_o, rate_o], ts]); ms = ctx.model.call(4, [], [[twopi, ref_s, rate_s], ts])
     worst = 0.0
-    day = float(specs.nondimensionalize(1 * scales.units.day))
+    day = 86400.0 / Ti
+    ctx.oracle_close('nondimensionalize(1 day) = 86400 s / T', [float(specs.nondimensionalize(1 * scales.units.day))], [day], scale=day, tol_rel=2.0 ** -40)
     for i, t in enumerate(ts):
         ot = sr.time_to_orbital_time(t)
         po = float(ot.orbital_phase); ps = float(ot.synodic_phase)
@@ -659,10 +1050,21 @@ def r_phase(ctx, a):
                    {'t': t, 'phase': po, 'phase_next_day': float(ot2.orbital_phase)})
     ctx.notes.append('largest reduced phase seen: 2pi - %.3e' % (twopi - worst))
     # calendar consistency: time of a datetime -> synodic phase equals the calendar's synodic phase
-    when = np.datetime64(a['ref']) + np.timedelta64(int(abs(ts[-1]) * 7) % 5000000, 'm')
+    mins = int(abs(ts[-1]) * 7) % 5000000
+    when = np.datetime64(a['ref']) + np.timedelta64(mins, 'm')
+    when_dt = d0 + datetime.timedelta(minutes=mins)
+    tt_ind = mins * 60.0 / Ti
+    forms = {'datetime64/ref datetime': sr_dt.datetime_to_time(when), 'datetime/ref datetime': sr_dt.datetime_to_time(when_dt),
+             'datetime64/ref datetime64': radiation.datetime_to_time(when, specs, np.datetime64(a['ref'])),
+             'datetime/ref datetime64': radiation.datetime_to_time(when_dt, specs, np.datetime64(a['ref'])),
+             'with seconds': radiation.datetime_to_time(when_dt + datetime.timedelta(seconds=47), specs, d0) - 47.0 / Ti}
+    for nm, v in forms.items():
+        ctx.oracle_close('datetime_to_time = elapsed seconds / T (%s)' % nm, [float(v)], [tt_ind], scale=abs(tt_ind) + 1.0, tol_rel=2.0 ** -40)
     tt = sr.datetime_to_time(when)
     got = float(sr.time_to_orbital_time(float(tt)).synodic_phase)
-    cal = float(radiation.datetime_to_orbital_time(radiation.datetime64_to_datetime(when)).synodic_phase)
+    cal = twopi * (((60 * when_dt.hour + when_dt.minute)) / 1440.0)
+    ctx.oracle_close('datetime_to_orbital_time synodic phase = 2 pi * minutes of the day / 1440',
+                     [float(radiation.datetime_to_orbital_time(when_dt).synodic_phase)], [cal], scale=twopi, tol_rel=2.0 ** -40)
     dd = (got - cal) / twopi
     ctx.oracle('synodic phase of elapsed time agrees with the calendar (mod 2 pi)', abs(dd - round(dd)) * twopi <= 2.0 ** -30 * (abs(rate_s * tt) + twopi),
                {'when': str(when), 'time': float(tt), 'phase': got, 'calendar_phase': cal})
@@ -685,6 +1087,7 @@ def r_calendar_phase(ctx, a):
         ctx.exact('datetime64_to_datetime', d64.isoformat(), d.isoformat())
 
 
-RUNNERS = {'units': r_units, 'td_dim': r_td_dim, 'td_dense': r_td_dense, 'td_trace': r_td_trace, 'td_oracle': r_td_oracle,
+RUNNERS = {'offset_units': r_offset_units, 'scale_api': r_scale_api, 'td_forms': r_td_forms, 'dt_forms': r_dt_forms,
+           'sim_time': r_sim_time, 'purity': r_purity, 'units': r_units, 'td_dim': r_td_dim, 'td_dense': r_td_dense, 'td_trace': r_td_trace, 'td_oracle': r_td_oracle,
            'dt_trace': r_dt_trace, 'dt_dense': r_dt_dense, 'dt_oracle': r_dt_oracle, 'time_axis': r_time_axis,
            'phase': r_phase, 'calendar_phase': r_calendar_phase}
